@@ -32,7 +32,7 @@ def gen_designs(ctx, n, prefix='G', ys_safe_fraction=0.0):
     if safe: g.features.add('ys-safe')
     src = g.source()
     cls, _ = sc.load_source(ctx, src, g.name)
-    out.append(sv.Design(g.name, cls, source=src, kind='gen', features=sorted(g.all_features())))
+    out.append(sv.Design(g.name, cls, source=src, kind='gen', features=sorted(g.all_features()), limits=g.limits))
   return out
 
 def directed_designs(ctx):
@@ -83,6 +83,9 @@ def _prepare(ctx, d, backend, ncycles, seed, sim_cache, r):
       r.status, r.detail, r.exc = 'syntax', str(e), e; return r
   except svparse.SvSyntaxError as e:
     r.status, r.detail, r.exc = 'syntax', str(e), e; return r
+  except _Watchdog: raise
+  except Exception as e:      # the parser itself must never take the check down: an unreadable text is a finding about the text
+    r.status, r.detail, r.exc = 'syntax', f'parser failed on the emitted text: {type(e).__name__}: {e}', e; return r
   return finish_case(r, backend)
 
 def finish_case(r, backend):
@@ -198,7 +201,7 @@ PRECEDENCE = {'reduce-of-binop', 'reduce-of-ifexp', 'sext-of-binop', 'sext-of-if
 def replay_of(r, w, backend, f=None, note=None):
   d = r.d
   cyc, port = w['cycle'], w['port']
-  out = {'design': d.name, 'kind': d.kind, 'backend': backend, 'design_source': d.source, 'cycle': cyc, 'port': port,
+  out = {'design': d.name, 'kind': d.kind, 'backend': backend, 'design_source': d.source, 'design_limits': list(d.limits), 'cycle': cyc, 'port': port,
          'pymtl_value': observed_at(r, cyc, port, backend, f), 'emitted_text_value': w['model'], 'inputs_at_cycle': r.trace[cyc][0],
          'inputs_all_cycles': [c[0] for c in r.trace[:cyc + 1]], 'emitted_lines': emitted_lines(r.text, port.split('__')[0] + ' ') + emitted_lines(r.text, port.split('__')[0] + '[')}
   if note: out['note'] = note
@@ -221,6 +224,9 @@ def report_static(ctx, r, pid, backend):
     ctx.extra.setdefault('unmodelled', []).append(f'{d.name}: {r.detail[:120]}')
     if d.kind in ('gen', 'directed'):
       ctx.violation(f'{pid}:generator-outside-subset:{d.name}', f'generated design {d.name} uses a construct svparse does not model: {r.detail[:200]}', base, found_input=False)
+  elif r.status == 'syntax' and getattr(r.exc, 'kind', '') == 'illegal-literal':
+    key = f'{pid}:{d.name}:illegal-literal' if d.kind in ('directed', 'case') else f'{pid}:syntax:illegal-literal'
+    ctx.violation(key, f'{d.name}: emitted text is not Verilog: {r.detail[:200]}', dict(base, parser_message=r.detail, emitted_lines=emitted_lines(r.text, "'d", 10)))
   elif r.status == 'syntax':
     ctx.violation(f'{pid}:syntax:{d.name}', f'emitted text of {d.name} does not fit the grammar of the emitted subset: {r.detail[:300]}', dict(base, parser_message=r.detail, emitted_text=r.text[-3000:]))
   elif r.status == 'portmap':
